@@ -17,6 +17,44 @@ open DecM
 
 def bsVersion (major minor : Nat) : Nat := major * 256 + minor
 
+/-- allocation events of `RAnsSymbolDecoder<…>::Create` (bitstream ≥ 2.0) with precision `pb` on the
+    bytes `bs`: `probability_table_.resize(num_symbols_)` (uint32) once the count has passed the
+    plausibility test, then — when the table has been read and is not empty —
+    `rans_build_look_up_table`: `lut_table_.resize(rans_precision)` (uint32) and
+    `probability_table_.resize(num_symbols)` (`rans_sym`, 8 bytes) -/
+def ransCreateAllocs (pb : Nat) (bs : Bytes) : List (String × Nat) :=
+  match decVarint 32 bs with
+  | none => []
+  | some (n, rest) =>
+    if n / 64 > rest.length then [] else
+    ("rans_symbol_decoder.probability_table", 4 * n) ::
+      (match decTableGo n n [] rest with
+       | none => []
+       | some (probs, _) =>
+         if probs.isEmpty then []
+         else [("rans_decoder.lut_table", 4 * 2 ^ pb), ("rans_decoder.probability_table", 8 * n)])
+
+/-- allocation events of `DecodeSymbols(num_values, …)` on the bytes `bs`: the symbol decoder of the
+    tagged scheme (5-bit tags) or of the raw scheme (`bit length` byte) -/
+def symbolAllocs (numValues : Nat) (bs : Bytes) : List (String × Nat) :=
+  if numValues = 0 then [] else
+  match bs with
+  | [] => []
+  | scheme :: rest =>
+    if scheme = 0 then ransCreateAllocs (ransPrecisionBits 5) rest
+    else if scheme = 1 then
+      match rest with
+      | [] => []
+      | b :: rest' => if 1 ≤ b ∧ b ≤ 18 then ransCreateAllocs (ransPrecisionBits b) rest' else []
+    else []
+
+/-- `DecodeSymbols` with its allocation events logged (the values come from the pure adapter).
+    Not used by the decoders below (their `lift (Leaf.decodeSymbols …)` steps are referred to by the
+    round-trip proofs); the events are bounded separately, see `DracoProps.C18.symbol_tables_bounded`. -/
+def decodeSymbolsM (numValues numComponents : Nat) : DecM (List Nat) := fun s =>
+  lift (Leaf.decodeSymbols numValues numComponents)
+    { s with allocs := (symbolAllocs numValues s.rest).reverse ++ s.allocs }
+
 /-- decoder options: attribute types whose transform is skipped (`SetSkipAttributeTransform`) -/
 structure DecOpts where
   skip : List Nat := []
